@@ -153,6 +153,9 @@ type pathCtx struct {
 	viols        []*Violation
 	stuckMsg     string
 	budgetHit    bool
+	known        map[int32]bool // term id -> truth value implied syntactically by the path condition
+	bound        uint64         // variables (index < 63) fixed to one value by an equality in the path condition
+	cacheHits    int
 	bgPanic      string
 	bgPanicVal   interface{}
 	branches     int
@@ -171,6 +174,52 @@ func (p *pathCtx) addPC(c *term) {
 	}
 	p.pending = append(p.pending, c)
 	p.pc++
+	p.learn(c)
+}
+
+// learn records what a new conjunct implies syntactically: the truth of the
+// conjunct itself (and of its conjuncts), and variables pinned by v == const.
+func (p *pathCtx) learn(c *term) {
+	if p.known == nil {
+		p.known = map[int32]bool{}
+	}
+	switch c.op {
+	case opNot:
+		p.known[c.a.id] = false
+		if c.a.op == opOr { // not (a or b) => not a, not b
+			p.learn(p.tb.not(c.a.a))
+			p.learn(p.tb.not(c.a.b))
+		}
+		return
+	case opAnd:
+		p.learn(c.a)
+		p.learn(c.b)
+	case opEq:
+		if c.a.op == opVar && c.b.isConst() && c.a.k < 63 {
+			p.bound |= 1 << c.a.k
+		} else if c.b.op == opVar && c.a.isConst() && c.b.k < 63 {
+			p.bound |= 1 << c.b.k
+		}
+	}
+	p.known[c.id] = true
+}
+
+// decided reports whether the path condition already determines c without a
+// solver query: c (or its negation) is a recorded conjunct, or every variable
+// of c is pinned to a single value (then the witness value is the value).
+func (p *pathCtx) decided(c *term) (val, ok bool) {
+	if v, ok := p.known[c.id]; ok {
+		return v, true
+	}
+	if c.op == opNot {
+		if v, ok := p.known[c.a.id]; ok {
+			return !v, true
+		}
+	}
+	if m := c.varMask(); m&(1<<63) == 0 && m&^p.bound == 0 {
+		return p.evalBool(c), true
+	}
+	return false, false
 }
 
 func (p *pathCtx) flush() {
@@ -211,7 +260,10 @@ func (p *pathCtx) branchV(c *term, recVal uint64) bool {
 	if c.isConst() {
 		return c.k != 0
 	}
-	p.branches++
+	if v, ok := p.decided(c); ok {
+		p.cacheHits++
+		return v
+	}
 	if p.pos < len(p.prefix) {
 		take := p.prefix[p.pos].d != 0
 		p.pos++
@@ -226,6 +278,7 @@ func (p *pathCtx) branchV(c *term, recVal uint64) bool {
 		}
 		return take
 	}
+	p.branches++
 	take := p.evalBool(c)
 	other := c
 	if take {
@@ -262,11 +315,11 @@ func (p *pathCtx) choice(n int, label string) int {
 	if n <= 1 {
 		return 0
 	}
-	p.choices++
 	var k int32
 	if p.pos < len(p.prefix) {
 		k = p.prefix[p.pos].d
 	} else {
+		p.choices++
 		for alt := int32(1); alt < int32(n); alt++ {
 			a := make([]dec, len(p.decisions)+1)
 			copy(a, p.decisions)
@@ -296,12 +349,20 @@ func (p *pathCtx) concretize(t *term) uint64 {
 	}
 	for n := 0; ; n++ {
 		if n > 300 {
-			panic(engineError{"concretisation cap exceeded"})
+			panic(engineError{fmt.Sprintf("concretisation cap exceeded: t=%s witness=%v pos=%d/%d", t, p.witness, p.pos, len(p.prefix))})
 		}
 		for len(p.witness) < len(p.tb.vars) {
 			p.witness = append(p.witness, 0)
 		}
 		v := p.tb.eval(t, p.witness)
+		if m := t.varMask(); m&(1<<63) == 0 && m&^p.bound == 0 {
+			return v // every variable of t is pinned: no decision needed
+		}
+		if t.w != 0 {
+			if val, ok := p.decided(p.tb.eq(t, p.tb.bv(v, t.w))); ok && val {
+				return v
+			}
+		}
 		if p.pos < len(p.prefix) {
 			v = p.prefix[p.pos].v // replay: the value that was tested then
 		}
@@ -619,7 +680,7 @@ func (ex *Explorer) runPath(S *solver, it workItem) (p *pathCtx, instrs int64) {
 		case budgetExceeded:
 			p.violation("budget", fmt.Sprintf("instruction budget of %d exceeded (possible non-termination)", p.budget), siteOf(p.curFrame), nil)
 		case targetPanic:
-			p.violation("panic", "panic: "+toString(r.v), siteOf(p.curFrame), nil)
+			p.violation("panic", "panic: "+panicValString(r.v), siteOf(p.curFrame), nil)
 		case runtime.Error:
 			if _, ok := r.(rtErr); !ok && !isTargetRuntimeError(r) {
 				// a host runtime error raised outside the modelled operations is an engine bug
